@@ -44,6 +44,29 @@ Lemma sign_payload_opt_eq alg t :
   sign_payload_opt alg t = if sign_payload_ok t then Some (sign_payload alg t) else None.
 Proof. reflexivity. Qed.
 
+(* ------------------------------------------------------------------ *)
+(* ucan/lib.go checkSignable (fixes/C07_signable.diff): encodeSignaturePayload, used by both
+   Issue and VerifySignature, refuses a payload that DAG-JSON cannot represent unambiguously:
+   issuer / audience that are not DIDs (they print as ""), a string that is not valid UTF-8
+   (version, algorithm, DID text, with, can, nonce, fact keys, strings and keys inside caveats
+   and facts), a caveat / fact map of a reserved shape.  Floats are outside the model (Ipld.v has
+   no float constructor): the guard does not look at them and an integral float still prints
+   like the integer (KNOWN_FINDINGS json-integral-float). *)
+Definition cap_safe (c : capm) : bool := utf8_valid (cm_with c) && utf8_valid (cm_can c) && json_safe (cm_nb c).
+Definition did_text_ok (s : bstr) : bool := negb (beq s []) && utf8_valid s.
+
+Definition signable_with (ds : bstr -> bstr) (alg : bstr) (t : utoken) : bool :=
+  did_text_ok (ds (u_iss t)) && did_text_ok (ds (u_aud t)) &&
+  utf8_valid (u_v t) && utf8_valid alg &&
+  match u_nnc t with Some s => utf8_valid s | None => true end &&
+  forallb cap_safe (u_att t) &&
+  match u_fct t with Some l => forallb (fun f => json_safe (IMap f)) l | None => true end.
+Definition signable (alg : bstr) (t : utoken) : bool := signable_with did_string alg t.
+
+(* encodeSignaturePayload: the message to sign / verify, or an error *)
+Definition signing_input (alg : bstr) (t : utoken) : option bstr :=
+  if signable alg t then sign_payload_opt alg t else None.
+
 Section Sign.
   (* symbolic crypto: key ids, signing is deterministic *)
   Variable sign : N -> bstr -> bstr.       (* key, message -> signature bytes (framed) *)
@@ -55,19 +78,51 @@ Section Sign.
   (* a signature validates at most one message under a key (unforgeability + determinism) *)
   Hypothesis valid_unique : forall k m m' s, valid k m s = true -> valid k m' s = true -> m = m'.
 
-  (* ucan.Issue: build the token, sign the payload that includes nnc / nbf when set *)
-  Definition issue (k : N) (ver aud : bstr) (att : list capm) (prf : option (list bstr)) (exp : option Z)
+  (* the token Issue builds once the payload is accepted *)
+  Definition issued (k : N) (ver aud : bstr) (att : list capm) (prf : option (list bstr)) (exp : option Z)
              (fct : option (list (list (bstr * ipld)))) (nnc : option bstr) (nbf : option Z) : utoken :=
     let t0 := mkU ver (did_of k) aud [] att prf exp fct nnc nbf in
     mkU ver (did_of k) aud (sign k (sign_payload_of (alg_of k) t0 true)) att prf exp fct nnc nbf.
 
-  (* ucan.VerifySignature(view, verifier of key k): rebuild the payload from the token *)
+  (* ucan.Issue: sign the payload that includes nnc / nbf when set; an error (None) when
+     encodeSignaturePayload refuses the payload *)
+  Definition issue (k : N) (ver aud : bstr) (att : list capm) (prf : option (list bstr)) (exp : option Z)
+             (fct : option (list (list (bstr * ipld)))) (nnc : option bstr) (nbf : option Z) : option utoken :=
+    let t0 := mkU ver (did_of k) aud [] att prf exp fct nnc nbf in
+    match signing_input (alg_of k) t0 with
+    | Some _ => Some (issued k ver aud att prf exp fct nnc nbf)
+    | None => None
+    end.
+
+  (* Issue as it was before the guard (5d39523) *)
+  Definition issue_unguarded := issued.
+
+  (* ucan.VerifySignature(view, verifier of key k): rebuild the payload from the token; an
+     encodeSignaturePayload error is (false, err) *)
   Definition verify (t : utoken) (k : N) : bool :=
+    match signing_input (alg_of k) t with
+    | Some m => beq (u_iss t) (did_of k) && valid k m (u_s t)
+    | None => false
+    end.
+
+  (* VerifySignature before the guard (5d39523) *)
+  Definition verify_unguarded (t : utoken) (k : N) : bool :=
     beq (u_iss t) (did_of k) && valid k (sign_payload_of (alg_of k) t true) (u_s t).
 
   (* the pinned VerifySignature rebuilt the payload WITHOUT nnc and nbf *)
   Definition verify_pinned (t : utoken) (k : N) : bool :=
     beq (u_iss t) (did_of k) && valid k (sign_payload_of (alg_of k) t false) (u_s t).
+
+  Lemma verify_spec t k : verify t k = signable (alg_of k) t && sign_payload_ok t && verify_unguarded t k.
+  Proof using.
+    unfold verify, verify_unguarded, signing_input. rewrite sign_payload_opt_eq.
+    destruct (signable (alg_of k) t); [|reflexivity]. destruct (sign_payload_ok t); reflexivity.
+  Qed.
+
+  Lemma signing_input_ignores_sig alg t s :
+    signing_input alg (mkU (u_v t) (u_iss t) (u_aud t) s (u_att t) (u_prf t) (u_exp t) (u_fct t) (u_nnc t) (u_nbf t))
+    = signing_input alg t.
+  Proof using. reflexivity. Qed.
 
   Lemma sign_payload_ignores_sig alg t s full :
     sign_payload_of alg (mkU (u_v t) (u_iss t) (u_aud t) s (u_att t) (u_prf t) (u_exp t) (u_fct t) (u_nnc t) (u_nbf t)) full
@@ -75,12 +130,27 @@ Section Sign.
   Proof using. reflexivity. Qed.
 
   (* every issued token verifies against its issuer — for every option combination *)
-  Theorem issue_verifies k ver aud att prf exp fct nnc nbf :
-    verify (issue k ver aud att prf exp fct nnc nbf) k = true.
+  Theorem issue_verifies k ver aud att prf exp fct nnc nbf t :
+    issue k ver aud att prf exp fct nnc nbf = Some t -> verify t k = true.
   Proof using valid_sign.
-    unfold verify, issue. cbn [u_iss u_s]. rewrite beq_refl. cbn [andb].
-    unfold sign_payload_of, sign_bytes, payload_ipld, prf_list. cbn [u_v u_iss u_aud u_att u_prf u_exp u_fct u_nnc u_nbf]. apply valid_sign.
+    unfold issue, verify. set (t0 := mkU ver (did_of k) aud [] att prf exp fct nnc nbf).
+    destruct (signing_input (alg_of k) t0) as [m|] eqn:E; [|discriminate]. intros H. inversion H; subst t. clear H.
+    unfold issued. fold t0.
+    change (signing_input (alg_of k) (mkU ver (did_of k) aud (sign k (sign_payload_of (alg_of k) t0 true)) att prf exp fct nnc nbf))
+      with (signing_input (alg_of k) t0). rewrite E. cbn [u_iss u_s]. rewrite beq_refl. cbn [andb].
+    unfold signing_input in E. destruct (signable (alg_of k) t0); [|discriminate].
+    rewrite sign_payload_opt_eq in E. destruct (sign_payload_ok t0); [|discriminate]. inversion E. apply valid_sign.
   Qed.
+
+  (* Issue fails exactly on the payloads encodeSignaturePayload refuses *)
+  Theorem issue_none_iff k ver aud att prf exp fct nnc nbf :
+    issue k ver aud att prf exp fct nnc nbf = None <->
+    signing_input (alg_of k) (mkU ver (did_of k) aud [] att prf exp fct nnc nbf) = None.
+  Proof using. unfold issue. destruct (signing_input _ _); split; congruence. Qed.
+
+  (* an unsignable token verifies for nobody *)
+  Theorem unsignable_rejected t k : signable (alg_of k) t = false -> verify t k = false.
+  Proof using. intros H. rewrite verify_spec, H. reflexivity. Qed.
 
   (* transport: the decoded token (caveats / facts in canonical form) still verifies *)
   Lemma cap_canon c : canon (cap_ipld (canon_cap c)) = canon (cap_ipld c).
@@ -126,18 +196,48 @@ Section Sign.
     rewrite <- (json_encode_canon (payload_ipld (canon_token t) full)), payload_canon, json_encode_canon. reflexivity.
   Qed.
 
+  Lemma cap_safe_canon c : cap_safe (canon_cap c) = cap_safe c.
+  Proof using. unfold cap_safe, canon_cap. cbn [cm_with cm_can cm_nb]. rewrite json_safe_canon. reflexivity. Qed.
+
+  Lemma fact_safe_canon f : json_safe (IMap (canon_fact f)) = json_safe (IMap f).
+  Proof using.
+    unfold canon_fact. rewrite (canon_map_eq f).
+    change (IMap (sort_map (map (on_snd canon) f))) with (canon (IMap f)). apply json_safe_canon.
+  Qed.
+
+  Lemma signable_canon alg t : signable alg (canon_token t) = signable alg t.
+  Proof using.
+    unfold signable, signable_with, canon_token. cbn [u_v u_iss u_aud u_att u_fct u_nnc].
+    f_equal; [f_equal|].
+    - apply forallb_map_ext. apply Forall_forall. intros c _. apply cap_safe_canon.
+    - destruct (u_fct t) as [l|]; [|reflexivity]. cbn [option_map].
+      apply forallb_map_ext. apply Forall_forall. intros f _. apply fact_safe_canon.
+  Qed.
+
+  Lemma sign_payload_ok_canon t : sign_payload_ok (canon_token t) = sign_payload_ok t.
+  Proof using.
+    unfold sign_payload_ok.
+    rewrite <- (json_encodable_canon (payload_ipld (canon_token t) true)), payload_canon, json_encodable_canon. reflexivity.
+  Qed.
+
+  Lemma signing_input_canon alg t : signing_input alg (canon_token t) = signing_input alg t.
+  Proof using.
+    unfold signing_input. rewrite signable_canon, !sign_payload_opt_eq, sign_payload_ok_canon.
+    unfold sign_payload. rewrite sign_payload_canon. reflexivity.
+  Qed.
+
   Theorem verify_after_transport t k :
     verify t k = true -> verify (canon_token t) k = true.
   Proof using.
-    unfold verify. rewrite sign_payload_canon. cbn [canon_token u_iss u_s]. auto.
+    unfold verify. rewrite signing_input_canon. cbn [canon_token u_iss u_s]. auto.
   Qed.
 
   (* verification against any other principal fails *)
   Theorem verify_other_principal t k k' :
     verify t k = true -> did_of k' <> did_of k -> verify t k' = false.
   Proof using.
-    unfold verify. intros H NE. rewrite andb_true_iff in H. destruct H as [I _]. apply beq_eq in I.
-    destruct (beq (u_iss t) (did_of k')) eqn:E; [|reflexivity]. apply beq_eq in E. congruence.
+    rewrite !verify_spec. unfold verify_unguarded. intros H NE. rewrite !andb_true_iff in H. destruct H as [_ [I _]]. apply beq_eq in I.
+    destruct (beq (u_iss t) (did_of k')) eqn:E; [|rewrite andb_false_r; reflexivity]. apply beq_eq in E. congruence.
   Qed.
 End Sign.
 
@@ -286,42 +386,8 @@ Proof.
       apply bytes_okb_ok; assumption.
 Qed.
 
-(* tamper detection: two tokens that verify for key k with the same signature bytes carry the
-   same signed bytes *)
-Section Tamper.
-  Variable valid : N -> bstr -> bstr -> bool.
-  Variable alg_of did_of : N -> bstr.
-  Hypothesis valid_unique : forall k m m' s, valid k m s = true -> valid k m' s = true -> m = m'.
-
-  Lemma verify_same_bytes t t' k :
-    verify valid alg_of did_of t k = true -> verify valid alg_of did_of t' k = true -> u_s t' = u_s t ->
-    u_iss t' = u_iss t /\ sign_payload (alg_of k) t' = sign_payload (alg_of k) t.
-  Proof using valid_unique.
-    intros V V' S. unfold verify in *. rewrite andb_true_iff in *.
-    destruct V as [I Vs]. destruct V' as [I' Vs']. apply beq_eq in I. apply beq_eq in I'.
-    split; [congruence|]. rewrite S in Vs'. symmetry. exact (valid_unique _ _ _ _ Vs Vs').
-  Qed.
-
-  Theorem verify_binds_payload t t' k :
-    json_safe (header_ipld (alg_of k) (u_v t)) = true -> json_safe (header_ipld (alg_of k) (u_v t')) = true ->
-    wf_ipld (header_ipld (alg_of k) (u_v t)) = true -> wf_ipld (header_ipld (alg_of k) (u_v t')) = true ->
-    json_safe (payload_ipld t true) = true -> json_safe (payload_ipld t' true) = true ->
-    wf_ipld (payload_ipld t true) = true -> wf_ipld (payload_ipld t' true) = true ->
-    token_ids_ok t = true -> token_ids_ok t' = true ->
-    verify valid alg_of did_of t k = true -> verify valid alg_of did_of t' k = true -> u_s t' = u_s t ->
-    u_v t' = u_v t /\ u_iss t' = u_iss t /\ u_aud t' = u_aud t /\
-    map canon_cap (u_att t') = map canon_cap (u_att t) /\ prf_list t' = prf_list t /\
-    u_exp t' = u_exp t /\ option_map (map canon_fact) (u_fct t') = option_map (map canon_fact) (u_fct t) /\
-    u_nnc t' = u_nnc t /\ u_nbf t' = u_nbf t.
-  Proof using valid_unique.
-    intros Sh Sh' Wh Wh' Sp Sp' Wp Wp' I I' V V' S.
-    destruct (verify_same_bytes t t' k V V' S) as [_ E].
-    destruct (sign_payload_inj _ _ _ _ Sh' Sh Wh' Wh Sp' Sp Wp' Wp I' I E) as [_ H]. exact H.
-  Qed.
-End Tamper.
-
-(* json_safe of the payload, in terms of the token *)
-Definition cap_safe (c : capm) : bool := utf8_valid (cm_with c) && utf8_valid (cm_can c) && json_safe (cm_nb c).
+(* ------------------------------------------------------------------ *)
+(* what the guard gives: the premises of sign_payload_inj                *)
 
 Definition token_json_safe (t : utoken) : bool :=
   utf8_valid (did_string (u_iss t)) && utf8_valid (did_string (u_aud t)) &&
@@ -347,3 +413,74 @@ Proof.
     cbn [option_map opt_field field concat app json_safe slash_shape negb andb forallb fst snd];
     rewrite ?Hi, ?Ha, ?CAPS, ?PRF, ?EXP, ?FCT, ?Hn; reflexivity.
 Qed.
+
+Lemma header_safe alg ver : utf8_valid alg = true -> utf8_valid ver = true -> json_safe (header_ipld alg ver) = true.
+Proof.
+  intros Ha Hv. unfold header_ipld, struct_map. cbn [concat field app json_safe slash_shape negb andb forallb fst snd].
+  rewrite Ha, Hv. reflexivity.
+Qed.
+
+(* a DID string is empty exactly for undecodable bytes *)
+Lemma did_string_nonempty b : negb (beq (did_string b) []) = true -> did_okb b = true.
+Proof.
+  unfold did_string, did_okb. destruct (did_decode b); [reflexivity|]. intros H. vm_compute in H. discriminate.
+Qed.
+
+(* the identifiers of a token are byte strings *)
+Definition token_bytes_ok (t : utoken) : bool :=
+  bytes_okb (u_iss t) && bytes_okb (u_aud t) && forallb bytes_okb (prf_list t).
+
+Theorem signable_gives alg t : signable alg t = true ->
+  json_safe (header_ipld alg (u_v t)) = true /\ json_safe (payload_ipld t true) = true /\
+  did_okb (u_iss t) = true /\ did_okb (u_aud t) = true.
+Proof.
+  unfold signable, signable_with, did_text_ok. rewrite !andb_true_iff.
+  intros [[[[[[[Ni Vi] [Na Va]] Hv] Hal] Hn] Hc] Hf].
+  repeat split.
+  - apply header_safe; assumption.
+  - apply payload_safe_of_token. unfold token_json_safe. rewrite Vi, Va, Hc, Hf, Hn. reflexivity.
+  - apply did_string_nonempty. exact Ni.
+  - apply did_string_nonempty. exact Na.
+Qed.
+
+Lemma token_ids_of t alg : signable alg t = true -> token_bytes_ok t = true -> token_ids_ok t = true.
+Proof.
+  intros S B. destruct (signable_gives _ _ S) as [_ [_ [Di Da]]].
+  unfold token_bytes_ok in B. unfold token_ids_ok. rewrite !andb_true_iff in *. tauto.
+Qed.
+
+(* tamper detection: two tokens that verify for key k with the same signature bytes carry the
+   same signed bytes, hence the same fields *)
+Section Tamper.
+  Variable valid : N -> bstr -> bstr -> bool.
+  Variable alg_of did_of : N -> bstr.
+  Hypothesis valid_unique : forall k m m' s, valid k m s = true -> valid k m' s = true -> m = m'.
+
+  Lemma verify_same_bytes t t' k :
+    verify_unguarded valid alg_of did_of t k = true -> verify_unguarded valid alg_of did_of t' k = true -> u_s t' = u_s t ->
+    u_iss t' = u_iss t /\ sign_payload (alg_of k) t' = sign_payload (alg_of k) t.
+  Proof using valid_unique.
+    intros V V' S. unfold verify_unguarded in *. rewrite andb_true_iff in *.
+    destruct V as [I Vs]. destruct V' as [I' Vs']. apply beq_eq in I. apply beq_eq in I'.
+    split; [congruence|]. rewrite S in Vs'. symmetry. exact (valid_unique _ _ _ _ Vs Vs').
+  Qed.
+
+  (* no json_safe premise: verification implies it *)
+  Theorem verify_binds_payload t t' k :
+    wf_ipld (header_ipld (alg_of k) (u_v t)) = true -> wf_ipld (header_ipld (alg_of k) (u_v t')) = true ->
+    wf_ipld (payload_ipld t true) = true -> wf_ipld (payload_ipld t' true) = true ->
+    token_bytes_ok t = true -> token_bytes_ok t' = true ->
+    verify valid alg_of did_of t k = true -> verify valid alg_of did_of t' k = true -> u_s t' = u_s t ->
+    u_v t' = u_v t /\ u_iss t' = u_iss t /\ u_aud t' = u_aud t /\
+    map canon_cap (u_att t') = map canon_cap (u_att t) /\ prf_list t' = prf_list t /\
+    u_exp t' = u_exp t /\ option_map (map canon_fact) (u_fct t') = option_map (map canon_fact) (u_fct t) /\
+    u_nnc t' = u_nnc t /\ u_nbf t' = u_nbf t.
+  Proof using valid_unique.
+    intros Wh Wh' Wp Wp' B B' V V' S.
+    rewrite verify_spec in V, V'. rewrite !andb_true_iff in V, V'. destruct V as [[G _] V]. destruct V' as [[G' _] V'].
+    destruct (signable_gives _ _ G) as [Sh [Sp _]]. destruct (signable_gives _ _ G') as [Sh' [Sp' _]].
+    pose proof (token_ids_of _ _ G B) as I. pose proof (token_ids_of _ _ G' B') as I'.
+    destruct (verify_same_bytes t t' k V V' S) as [_ E].
+    destruct (sign_payload_inj _ _ _ _ Sh' Sh Wh' Wh Sp' Sp Wp' Wp I' I E) as [_ H]. exact H.
+  Qed.
+End Tamper.
